@@ -213,13 +213,13 @@ def pulse(*args):
         first = ' self.starttime '
 
     if interval == None:
-        return '('+str(volume) + ' /self.dt if ' + str(first) + ' <= t else 0)'
+        return '(('+str(volume) + ') /self.dt if (' + str(first) + ') <= t else 0)'
 
     if int(interval) == 0:
-        return '('+ str(volume) + ' /self.dt if ' + str(first) + ' == t else 0)'
+        return '(('+ str(volume) + ') /self.dt if (' + str(first) + ') == t else 0)'
 
-    return '('+str(volume) + '/ self.dt if ' + str(first) + ' <= t and ((t -' + str(first) + ') % ' + str(
-        interval) + ') == 0 else 0)'
+    return '(('+str(volume) + ')/ self.dt if (' + str(first) + ') <= t and ((t -(' + str(first) + ')) % (' + str(
+        interval) + ')) == 0 else 0)'
 
 
 def derivn_(*args):
@@ -616,7 +616,7 @@ def step_(*args):
     height = parseExpression(args[0])
     time = parseExpression(args[1])
 
-    return "(0 if t < " + str(time) + " else " + str(height) + ")"
+    return "(0 if t < (" + str(time) + ") else (" + str(height) + "))"
 
 def safediv_(*args):
     args = remove_nesting(args)
@@ -626,10 +626,10 @@ def safediv_(*args):
     onzero = None if len(args) ==2 else parseExpression(args[2])
 
     if onzero is not None:
-        return "(( "+ str(onzero) + ")" + ' if (' + str(denominator) + ') == 0 else (' + str(nominator) + ' / ' + str(denominator) + "))"
+        return "(( "+ str(onzero) + ")" + ' if (' + str(denominator) + ') == 0 else ((' + str(nominator) + ') / (' + str(denominator) + ")))"
     else:
-        return "((0)" + ' if (' + str(denominator) + ') == 0 else (' + str(nominator) + ' / ' + str(
-            denominator) + "))"
+        return "((0)" + ' if (' + str(denominator) + ') == 0 else ((' + str(nominator) + ') / (' + str(
+            denominator) + ")))"
 
 def history_(*args):
     args = remove_nesting(args)
@@ -702,7 +702,7 @@ def percent_(*args):
             elem.remove(",")
         except:
             pass
-    return "({}*100)".format(parseExpression(args[0]))
+    return "(({})*100)".format(parseExpression(args[0]))
 
 def counter_(*args):
     args = remove_nesting(args)
@@ -728,7 +728,7 @@ def pmt_(*args):
     fv = parseExpression(args[3])
 
     if fv == "0" or fv == 0:
-        return "( -{} * ( ( 1+ {})**{}*{}) / ( ( 1+{})**{}-1) ) ".format(C,p,n,p,p,n)
+        return "( -({}) * ( ( 1+ ({}))**({})*({})) / ( ( 1+({}))**({})-1) ) ".format(C,p,n,p,p,n)
     print("PMT with Future Value argument not yet supported!")
     return "0"
 
@@ -752,7 +752,7 @@ def pv_(*args):
     fv = parseExpression(args[3])
 
     if fv == "0" or fv == 0:
-        return "(- ({} * ( 1 - (( 1+{})**(-{}))) / {}))".format(pmt, p, n , p)
+        return "(- (({}) * ( 1 - (( 1+({}))**(-({})))) / ({})))".format(pmt, p, n , p)
 
     print("PV with Future Value argument not yet supported!")
     return "0"
@@ -883,15 +883,15 @@ builtins = {
 
     'rootn' : lambda *args: "( self.rootn({}, {}) )".format(parseExpression(remove_nesting(args)[0]) ,parseExpression(remove_nesting(args)[1] )),
 
-    'sqrt': lambda *args: "({} ** 0.5 )".format(parseExpression(remove_nesting(args))),
+    'sqrt': lambda *args: "(({}) ** 0.5 )".format(parseExpression(remove_nesting(args))),
 
     'log10': lambda *args: "(np.log10({}))".format(parseExpression(remove_nesting(args))),
 
     'ln': lambda *args: "(np.log({}))".format(parseExpression(remove_nesting(args))),
 
-    'sinwave' : lambda *args : "( np.sin(2*np.pi / {} * (t-self.starttime) ) * {} )".format(parseExpression(remove_nesting(args)[1]),parseExpression(remove_nesting(args)[0])),
+    'sinwave' : lambda *args : "( np.sin(2*np.pi / ({}) * (t-self.starttime) ) * ({}) )".format(parseExpression(remove_nesting(args)[1]),parseExpression(remove_nesting(args)[0])),
 
-    'coswave': lambda *args: "( np.cos(2*np.pi / {} * (t-self.starttime) ) * {} )".format(
+    'coswave': lambda *args: "( np.cos(2*np.pi / ({}) * (t-self.starttime) ) * ({}) )".format(
         parseExpression(remove_nesting(args)[1]), parseExpression(remove_nesting(args)[0])),
 
     # Logical builtins
@@ -917,7 +917,7 @@ builtins = {
 
     # Data builtins
     # http://www.iseesystems.com/Helpv10/Content/Reference/Builtins/Data_builtins.htm
-    'init': lambda *args: parseExpression(args).replace(", t", ", self.starttime"),
+    'init': lambda *args: "(" + parseExpression(args).replace(", t", ", self.starttime") + ")",
 
     'endval' : lambda *args : endval_(args),
 
@@ -1010,6 +1010,6 @@ builtins = {
 
     'inf' : lambda *args : "np.inf",
 
-    'cgrowth' : lambda *args : " ( self.cgrowth( {} / 100) )".format(parseExpression(remove_nesting(args)[0])),
+    'cgrowth' : lambda *args : " ( self.cgrowth( ({}) / 100) )".format(parseExpression(remove_nesting(args)[0])),
 
 }
